@@ -20,7 +20,7 @@ import (
 
 var serOps = []string{"json", "jsonindent", "openapi", "openapiindent", "title"}
 
-func buildMem(name string, content []byte) (b *built) {
+func buildMem(name string, content []byte, ban ...[]string) (b *built) {
 	b = &built{}
 	defer func() {
 		if r := recover(); r != nil {
@@ -28,7 +28,11 @@ func buildMem(name string, content []byte) (b *built) {
 			b.panic = panicInfo("build", r)
 		}
 	}()
-	j, je := kit.NewJApiFromFile(fs.NewFile(name, content))
+	opts, oerr := sharedBanOpts(ban)
+	if oerr != nil {
+		panic("harness: " + oerr.Error())
+	}
+	j, je := kit.NewJApiFromFile(fs.NewFile(name, content), opts...)
 	b.j = j
 	if je != nil {
 		b.err = errInfo(je)
@@ -82,7 +86,7 @@ func runConc(c *proto.ConcJob) *proto.ConcResult {
 	baseline := make([]base, len(c.Projects))
 	computeBaseline := func() {
 		for i, p := range c.Projects {
-			b := buildMem(p.Name, p.Content)
+			b := buildMem(p.Name, p.Content, p.SharedBan...)
 			baseline[i] = base{build: buildSig(b), outs: map[string]string{}}
 			if b.accepted {
 				for _, op := range serOps {
@@ -125,7 +129,7 @@ func runConc(c *proto.ConcJob) *proto.ConcResult {
 				defer wg.Done()
 				<-start
 				p := c.Projects[idx]
-				b := buildMem(p.Name, p.Content)
+				b := buildMem(p.Name, p.Content, p.SharedBan...)
 				atomic.AddInt64(&builds, 1)
 				if c.ColdStart {
 					o := obs{idx: idx, build: buildSig(b), outs: map[string]string{}}
@@ -187,7 +191,7 @@ func runConc(c *proto.ConcJob) *proto.ConcResult {
 			if baseline[i].build != "OK" {
 				continue
 			}
-			b := buildMem(p.Name, p.Content)
+			b := buildMem(p.Name, p.Content, p.SharedBan...)
 			if !b.accepted {
 				addMismatch("shared build of " + p.Name + " rejected: " + buildSig(b))
 				continue
